@@ -43,6 +43,8 @@ class RecApp(Application):
 
     def handle_answer(self, m):
         self.answers.append(m)
+        if self.raise_in_handler:
+            raise RuntimeError("answer handler failed")
 
 
 def cut_statistics(on=True):
